@@ -10,6 +10,13 @@ def main():
         os.cpu_count = lambda: workers
         if hasattr(os, 'process_cpu_count'):
             os.process_cpu_count = lambda: workers
+    if os.environ.get('VERIF_MC_COARSE_CLOCK'):
+        # a host whose wall clock ticks coarsely (here: whole seconds; still monotone).  Nothing in the property allows the draws to
+        # depend on the clock, so every worker must still get its own stream.
+        import time
+        _t, _tn = time.time, time.time_ns
+        time.time = lambda: float(int(_t()))
+        time.time_ns = lambda: (_tn() // 10 ** 9) * 10 ** 9
     import matplotlib
     matplotlib.use('Agg')
     from geophires_monte_carlo import MC_GeoPHIRES3
